@@ -703,6 +703,12 @@ def generate_items(rng, tier, tables):
     for _ in range(100 * scale):
         a = arch_pick()
         body, _, _ = models[a].listing()
+        if rng.random() < 0.3:
+            # the function starts with an unusual marker line (every line beginning with TEXT is one: bare, with trailing
+            # blanks, glued to other text) followed by a site that has no number load of its own
+            raw = b"SYSCALL" if a == "X86_64" else rng.choice([b"INT $0x80", b"SYSENTER"])
+            site = rng.choice([b"  f.go:9\t0x9\t0f05\t" + raw + b"\t\n", b"  f.go:9\t0x9\te8\tCALL syscall.Syscall(SB)\t\n"])
+            body = rng.choice([b"TEXT", b"TEXT ", b"TEXT\t", b"TEXT  ", b"TEXTURE", b"TEXT\r"]) + b"\n" + site + body
         datas = [body]
         for _k in range(2):
             pre, _, _ = models[a].listing()
